@@ -507,16 +507,18 @@ fn main() {
             db.put(WriteOptions::default(), b"k2".to_vec(), b"a".to_vec()).unwrap();
             let seen: std::sync::Arc<std::sync::Mutex<Vec<String>>> = Default::default();
             let (db2, seen2) = (std::sync::Arc::clone(&db), std::sync::Arc::clone(&seen));
+            let plain = a.len() > 1 && a[1] == "plain";
             v::set_sched_hook(Some(std::sync::Arc::new(move |name: &str| {
                 if name == "memtable.after_insert" && seen2.lock().unwrap().is_empty() {
-                    // one consistent view: a snapshot, then both keys at that snapshot
+                    // one consistent view: a snapshot, then both keys at that snapshot (mode "snapshot"),
+                    // or two plain gets issued while the writer is paused (mode "plain": k2 first, then k1)
                     let snap = db2.get_snapshot();
                     let r = |k: &[u8]| {
-                        db2.get(ReadOptions { fill_cache: true, snapshot: Some(snap.clone()) }, k)
-                            .map(|x| String::from_utf8_lossy(&x).to_string())
-                            .unwrap_or_else(|_| "none".to_string())
+                        let ro = if plain { ReadOptions::default() } else { ReadOptions { fill_cache: true, snapshot: Some(snap.clone()) } };
+                        db2.get(ro, k).map(|x| String::from_utf8_lossy(&x).to_string()).unwrap_or_else(|_| "none".to_string())
                     };
-                    let (a, b) = (r(b"k1"), r(b"k2"));
+                    let b = r(b"k2");
+                    let a = r(b"k1");
                     seen2.lock().unwrap().push(format!("{},{}", a, b));
                     db2.release_snapshot(snap);
                 }
